@@ -1,5 +1,5 @@
 SPECIFICATION Spec
-INVARIANTS GraphIso WrittenOnce TamperTotal OffersDistinct EmitCases
+INVARIANTS GraphIso WrittenOnce TamperTotal OffersDistinct TablesIndependent EmitCases
 CHECK_DEADLOCK FALSE
 CONSTANT MaxN = 3
 CONSTANT Big = {}
